@@ -160,6 +160,31 @@ type clientStreamWrapper struct {
 	grpc.ClientStream
 }
 
+// The finalizer set in NewStream cancels the stream as soon as the wrapper is
+// unreachable, which it is while one of the promoted methods is blocked (the
+// receiver is not used after the embedded stream has been loaded from it). So
+// the operations that can block keep the wrapper alive until they return.
+
+func (w *clientStreamWrapper) Header() (metadata.MD, error) {
+	defer runtime.KeepAlive(w)
+	return w.ClientStream.Header()
+}
+
+func (w *clientStreamWrapper) CloseSend() error {
+	defer runtime.KeepAlive(w)
+	return w.ClientStream.CloseSend()
+}
+
+func (w *clientStreamWrapper) SendMsg(m interface{}) error {
+	defer runtime.KeepAlive(w)
+	return w.ClientStream.SendMsg(m)
+}
+
+func (w *clientStreamWrapper) RecvMsg(m interface{}) error {
+	defer runtime.KeepAlive(w)
+	return w.ClientStream.RecvMsg(m)
+}
+
 func getPeer(baseUrl *url.URL, tls *tls.ConnectionState) *peer.Peer {
 	hostPort := baseUrl.Host
 	if !strings.Contains(hostPort, ":") {
